@@ -8,8 +8,27 @@ open Conv
 
 let cs = coq_string_of_string
 let sc = string_of_coq_string
+let unesc (tok : string) : string =
+  if tok = "%e" then "" else begin
+    let b = Buffer.create (String.length tok) in
+    let i = ref 0 in
+    let n = String.length tok in
+    while !i < n do
+      if tok.[!i] = '%' && !i + 2 < n + 0 && !i + 2 <= n - 1 then begin
+        (match int_of_string_opt ("0x" ^ String.sub tok (!i + 1) 2) with
+         | Some v -> Buffer.add_char b (Char.chr v); i := !i + 3
+         | None -> Buffer.add_char b tok.[!i]; incr i)
+      end else begin Buffer.add_char b tok.[!i]; incr i end
+    done;
+    Buffer.contents b
+  end
 let path_of_string (s : string) : path = List.map cs (List.filter (fun x -> x <> "") (String.split_on_char '/' s))
-let string_of_path (p : path) : string = String.concat "/" (List.map sc p)
+let esc_path (s : string) : string =
+  let b = Buffer.create (String.length s) in
+  String.iter (fun c -> let k = Char.code c in
+                if k <= 0x20 || c = '%' || k = 0x7f then Buffer.add_string b (Printf.sprintf "%%%02x" k) else Buffer.add_char b c) s;
+  Buffer.contents b
+let string_of_path (p : path) : string = esc_path (String.concat "/" (List.map sc p))
 
 let expand (tok : string) : n list =
   let bytes =
@@ -126,7 +145,7 @@ let print_event (before : fs) (ev : event) =
      | CUnlink a -> p "%d 0 unlink %s = %s\n" !seq (string_of_path a) (rtail r)
      | CMkdir a -> p "%d 0 mkdir %s 0777 = %s\n" !seq (string_of_path a) (rtail r)
      | COpenDir a -> p "%d 0 opendir %s = %s\n" !seq (string_of_path a) (rtail r)
-     | CReadDir d -> (match r with RNames l -> List.iter (fun n -> p "%d 0 readdir %s = %s -\n" !seq (fdpath before d) (sc n)) l | _ -> ()))
+     | CReadDir d -> (match r with RNames l -> List.iter (fun n -> p "%d 0 readdir %s = %s -\n" !seq (fdpath before d) (esc_path (sc n))) l | _ -> ()))
 
 (* Replays the events against the fs to know the state before each call (fd paths). *)
 let print_events (start : world) (o : oracle) (evs : event list) =
@@ -257,7 +276,7 @@ let run () =
                let k = String.sub f.(i) 0 j and v = String.sub f.(i) (j + 1) (String.length f.(i) - j - 1) in
                (match k with
                 | "times" -> o := { !o with o_times = (if v = "" then [] else List.map z_of_string (String.split_on_char ',' v)) }
-                | "orders" -> o := { !o with o_orders = (if v = "" then [] else List.map (fun g -> if g = "" then [] else List.map cs (String.split_on_char ',' g)) (String.split_on_char '|' v)) }
+                | "orders" -> o := { !o with o_orders = (if v = "" then [] else List.map (fun g -> if g = "" then [] else List.map (fun x -> cs (unesc x)) (String.split_on_char ',' g)) (String.split_on_char '|' v)) }
                 | "fresh" -> o := { !o with o_fresh = (if v = "" then [] else List.map cs (String.split_on_char ',' v)) }
                 | "fault" -> (match String.split_on_char ':' v with [n; e] -> o := { !o with o_fault = Some (nat_of_int (int_of_string n), errno_of_name e) } | _ -> ())
                 | "gran" -> o := { !o with o_gran = z_of_string v }
@@ -278,7 +297,7 @@ let run () =
             | [] -> ());
            Printf.printf "# step %d begin %s\n" !step kind;
            let fds_before = count_fds () in
-           let key i = { k_name = cs f.(i); k_hash = n_of_string f.(i + 1); k_sec = n_of_string f.(i + 2) } in
+           let key i = { k_name = cs (unesc f.(i)); k_hash = n_of_string f.(i + 1); k_sec = n_of_string f.(i + 2) } in
            let held = ref None in
            let marks evs = List.filter_map (function EvMark (t, pl) -> Some (int_of_n t, pl) | _ -> None) evs in
            let file_line (r : nat option outcome) =
@@ -306,13 +325,13 @@ let run () =
              | "roget" -> let (r, e) = run_prog (ro_get (fronts_r ()) (chk ()) (key 3)) o in evs_all := e; file_line r
              | "pget" | "sget" ->
                let fr = (match front_w () with Some x -> x | None -> failwith "no writer") in
-               let k = if kind = "pget" then { k_name = cs f.(3); k_hash = N0; k_sec = N0 } else key 3 in
+               let k = if kind = "pget" then { k_name = cs (unesc f.(3)); k_hash = N0; k_sec = N0 } else key 3 in
                let (r, e) = run_prog (f_get fr k) o in evs_all := e; file_line r
              | "touch" -> let (r, e) = run_prog (cache_touch (cfg h) (key 3)) o in evs_all := e; bool_line r
              | "rotouch" -> let (r, e) = run_prog (ro_touch (fronts_r ()) (key 3)) o in evs_all := e; bool_line r
              | "ptouch" | "stouch" ->
                let fr = (match front_w () with Some x -> x | None -> failwith "no writer") in
-               let k = if kind = "ptouch" then { k_name = cs f.(3); k_hash = N0; k_sec = N0 } else key 3 in
+               let k = if kind = "ptouch" then { k_name = cs (unesc f.(3)); k_hash = N0; k_sec = N0 } else key 3 in
                let (r, e) = run_prog (f_touch fr k) o in evs_all := e; bool_line r
              | "set" | "put" ->
                incr stage_ctr;
@@ -323,7 +342,7 @@ let run () =
              | "pset" | "pput" | "sset" | "sput" ->
                incr stage_ctr;
                let fr = (match front_w () with Some x -> x | None -> failwith "no writer") in
-               let (k, ci) = if kind.[0] = 'p' then ({ k_name = cs f.(3); k_hash = N0; k_sec = N0 }, 4) else (key 3, 6) in
+               let (k, ci) = if kind.[0] = 'p' then ({ k_name = cs (unesc f.(3)); k_hash = N0; k_sec = N0 }, 4) else (key 3, 6) in
                let chunks = if Array.length f > ci + 1 then int_of_string f.(ci + 1) else 1 in
                let src = [cs "stage"; cs (Printf.sprintf "src%d" !stage_ctr)] in
                let which = (kind = "pset" || kind = "sset") in
